@@ -407,8 +407,9 @@ fn adc_mul_limbs(lhs: &[Limb], rhs: &[Limb], out: &mut [Limb]) -> Limb {
             j += 1;
         }
 
-        carry = carry.wrapping_add(carry2);
-        (out[i + j], carry) = out[i + j].adc(Limb::ZERO, carry);
+        // `carry2` can be `Limb::MAX` when accumulating onto a non-zero `out`, so it must not be
+        // folded into the pending carry bit with a wrapping addition.
+        (out[i + j], carry) = out[i + j].adc(carry2, carry);
         i += 1;
     }
 
